@@ -23,7 +23,7 @@ def gen_world(rng, pid):
     if with_refs and rng.random() < 0.4:
         classes["Mid"] = {"fields": [["ri", "ref", "Inner"], ["k", "scalar", "Int64"]]}; order.append("Mid")
     outer_fields = [["inner", "nested", "Inner"], ["inner2", "nested", "Inner"], ["s", "scalar", "Float64"], ["v", "array", "Float64", [None]], ["n", "scalar", "Int32"]]
-    if with_refs: outer_fields.insert(2, ["r", "ref", "Inner"])
+    if with_refs and ("Mid" not in classes or rng.random() < 0.5): outer_fields.insert(2, ["r", "ref", "Inner"])     # sometimes references only inside a nested class
     if "Mid" in classes: outer_fields.append(["mid", "nested", "Mid"])
     rng.shuffle(outer_fields)
     outer = {"fields": outer_fields, "rename": {"inner2": "inner_renamed"}}
@@ -257,8 +257,8 @@ def judge_case(pid, c, r):
     world = c["world"]
     for k, (op, st) in enumerate(zip(c["ops"], r["steps"])):
         kind = op["op"] + ("-" + op["kind"] if "kind" in op else "")
-        mine = {"C18": op["op"] in ("new", "set", "set_item", "copy", "move"), "C19": op["op"] in ("to_dict_roundtrip", "new"),
-                "C20": op["op"] in ("pickle", "new", "set", "set_item")}[pid]
+        mine = {"C18": op["op"] in ("new", "set", "set_item", "copy", "move"), "C19": op["op"] == "to_dict_roundtrip",
+                "C20": op["op"] in ("pickle", "set", "set_item")}[pid]
         if op["op"] in ("set", "set_item") and pid == "C20":
             mine = op["obj"].startswith("p")       # usability of unpickled objects
         refused = op.get("refused", False)
